@@ -331,4 +331,3 @@ func rePrefix(seq [][]string, prefix string) [][]string {
 	}
 	return out
 }
-
